@@ -47,6 +47,16 @@ SKELETONS = [
     (P + "ms_legacy.doc_extractor", "_DocReader._parse_content", ["flags & FIB_ENCRYPTED_FLAG"],
      {"callee_mode": True, "drop_first": "if self._content is not None:\n    return self._content"}),
 ]
+# registered extractors whose format has no encryption mechanism named by the property
+NO_MECHANISM = [
+    (P + "ms_legacy.rtf_extractor", "read_rtf", "RTF has no container-level encryption"),
+    (P + "mail.msg_email_extractor", "read_msg_format_mail", "S/MIME bodies are attachments, not a container wrapper"),
+    (P + "mail.mbox_email_extractor", "read_mbox_format_mail", "plain mailbox text"),
+    (P + "mail.eml_email_extractor", "read_eml_format_mail", "plain RFC 822 text"),
+    (P + "plain_extractor", "read_plain_text", "plain text"),
+    (P + "html_extractor", "read_html", "plain markup"),
+    (P + "mhtml_extractor", "read_mhtml", "MIME text"),
+]
 # the detector named in a guard must be THE detector of util/encryption.py
 DETECTOR_NAMES = {"is_ooxml_encrypted", "is_xls_encrypted", "is_ppt_encrypted", "is_odf_encrypted"}
 
@@ -97,10 +107,44 @@ def gen_skeletons(ctx):
         src = _i.getsource(getattr(importlib.import_module(mod), fn))
         if "ExtractionFileEncryptedError" in src and (mod, fn) not in covered:
             errors.append(f"{mod}.{fn} raises the encrypted error but has no skeleton")
+    # ZIP route: two passes (flag check of every member, then yields)
+    zip_prefix = "GYield"
+    try:
+        p1, ng, zip_prefix = flow.zip_two_pass(P + "archive_extractor", "_extract_from_zip_optimized", ExtractionFileEncryptedError,
+                                               "info.flag_bits & 1", "files_to_process.append((info, filename, basename))")
+        out.append((P + "archive_extractor._extract_from_zip_optimized#pass1-member", p1))
+    except Exception as e:  # noqa
+        errors.append(f"zip two-pass: {e}")
+        out.append((P + "archive_extractor._extract_from_zip_optimized#pass1-member", "GYield"))
+    # every registered extractor is classified; an unclassified (new) one fails closed
+    classified = {}
+    for mod, qn, _, _ in SKELETONS:
+        classified[(mod, qn.split(".")[0])] = "guard-skeleton"
+    classified[(P + "archive_extractor", "read_archive")] = "delegates: zip two-pass skeleton + model, 7z skeleton, tar has no encryption"
+    for mod, fn, why in NO_MECHANISM:
+        classified[(mod, fn)] = "no encryption mechanism of the property: " + why
+    inv = {}
+    for (mod, fn) in sorted(seen):
+        inv[f"{mod.split('.')[-1]}.{fn}"] = classified.get((mod, fn), "UNCLASSIFIED")
+        if (mod, fn) not in classified:
+            errors.append(f"{mod}.{fn} is a registered extractor without a classification (guard skeleton / delegate / no mechanism)")
+    ra = _i.getsource(getattr(importlib.import_module(P + "archive_extractor"), "read_archive"))
+    for callee in ("_extract_from_zip_optimized", "_extract_from_7z_optimized"):
+        if f"yield from {callee}(" not in ra:
+            errors.append(f"read_archive no longer delegates with `yield from {callee}(`")
+    ctx.extra["extractor_inventory"] = inv
+    sbg = {}
+    for mod, qn, tests, kw in SKELETONS:
+        try:
+            sbg[f"{mod.split('.')[-1]}.{qn}"] = flow.statements_before_guard(mod, qn, tests, kw.get("guard_stmt"))
+        except Exception as e:  # noqa
+            sbg[f"{mod.split('.')[-1]}.{qn}"] = f"error: {e}"
+    ctx.extra["statements_before_guard"] = sbg
     ctx.obligation("translator:all-guard-skeletons-translated", not errors, "; ".join(errors))
     txt = "(* GENERATED on every check run from /repo's source by tools/props/c08_flow.py — do not edit. *)\n"
     txt += "From Coq Require Import String List.\nFrom S2T Require Import C08.Flow.\nImport ListNotations.\nOpen Scope string_scope.\n\n"
     txt += "Definition skeletons : list (string * gs) := [\n" + ";\n".join(f'  ("{n}", {t})' for n, t in out) + "\n].\n"
+    txt += f"\n(* the with-block of the ZIP route up to (excluding) the second loop *)\nDefinition zip_prefix : gs := {zip_prefix}.\n"
     ctx.gen_write("Gen/C08Skeletons.v", txt)
     return errors
 
@@ -127,6 +171,7 @@ def gen_tables(ctx):
     txt += "From S2T Require Import Lib.PyStr.\n\n"
     txt += "Definition g_enc_streams : list str := " + coq_list([coq_str(x) for x in enc]) + ".\n"
     txt += "Definition g_ppt_streams : list str := " + coq_list([coq_str(x) for x in ppt]) + ".\n"
+    txt += f"Definition g_ppt_token_aware : bool := {coq_bool(ppt_token_aware())}.\n"
     txt += "Definition g_xls_ints : list N := [" + "; ".join(str(x) for x in xls_ints) + "]%N.\n"
     txt += f"Definition g_min_doc_size : nat := {int(de.MIN_DOC_SIZE)}.\n"
     txt += f"Definition g_doc_magics : list N := [{int(de.FIB_MAGIC_WORD97)}; {int(de.FIB_MAGIC_WORD95)}]%N.\n"
@@ -353,6 +398,41 @@ def xls_e2e(ctx, e2e):
         for i in sorted(set(p for p in pick if 0 <= p < len(offs))):
             enc = W.ole_patch(data, "Workbook", [(offs[i], b"\x2f\x00")])  # record i becomes FILEPASS (same length)
             e2e.check(f"xls-filepass-at-record:{base}", "xls", read_xls, ".xls", enc, True, cli=(i == 0))
+    # the three FILEPASS flavours ([MS-XLS] 2.4.117) inserted after the first BOF of every fixture's Workbook
+    # stream, the payload of the following records scrambled as an encrypter would leave it (headers in clear)
+    flavours = {
+        "xor-obfuscation": struct.pack("<HHH", 0, 0x5A5A, 0x1234),
+        "rc4": struct.pack("<HHH", 1, 1, 1) + bytes(rng.randrange(256) for _ in range(48)),
+        "rc4-cryptoapi": struct.pack("<HHHI", 1, 4, 2, 0x04) + struct.pack("<I", 0x7E) + struct.pack("<IIIIIIII", 0x04, 0, 0x6801, 0x8004, 128, 1, 0, 0)
+        + "Microsoft Enhanced Cryptographic Provider v1.0".encode("utf-16-le") + b"\0\0" + struct.pack("<I", 16)
+        + bytes(rng.randrange(256) for _ in range(32)) + struct.pack("<I", 20) + bytes(rng.randrange(256) for _ in range(20)),
+    }
+    for fx in sorted(glob.glob(str(RES / "legacy_ms" / "*.xls"))):
+        base = os.path.basename(fx)
+        try:
+            streams = W.ole_all_streams(open(fx, "rb").read())
+        except ValueError:
+            ctx.count("xls-filepass-flavours-skipped(nested storage)")
+            continue
+        wb = dict(streams).get("Workbook") or dict(streams).get("Book")
+        if not wb:
+            continue
+        first = 4 + struct.unpack_from("<H", wb, 2)[0]
+        for nm, payload in flavours.items():
+            rest, off = bytearray(), first
+            ks = W.rc4(b"c08" + nm.encode(), bytes(len(wb)))
+            while off + 4 <= len(wb):
+                rid, ln = struct.unpack_from("<HH", wb, off)
+                body = wb[off + 4: off + 4 + ln]
+                if rid not in (0x0809, 0x002F, 0x00E1, 0x00E2):       # BOF, FILEPASS, INTERFACEHDR/END stay in the clear
+                    body = bytes(a ^ b for a, b in zip(body, ks[off: off + ln]))
+                rest += wb[off: off + 4] + body
+                off += 4 + ln
+            new_wb = wb[:first] + struct.pack("<HH", 0x2F, len(payload)) + payload + bytes(rest)
+            nm_stream = "Workbook" if dict(streams).get("Workbook") else "Book"
+            data = W.cfb([(n, new_wb if n == nm_stream else d) for n, d in streams])
+            e2e.check(f"xls-filepass-flavour:{nm}", "xls", read_xls, ".xls", data, True, cli=(nm == "rc4"))
+        e2e.check(f"xls-rebuilt-plain:{base}", "xls", read_xls, ".xls", W.cfb(streams), False, cli=False)
     # synthetic container, BIFF stream with FILEPASS after BOF
     recs = [(0x0809, b"\0\6\5\0" + b"\0" * 12), (0x2F, b"\1\0\1\0" + b"\0" * 50), (0x0A, b"")]
     e2e.check("xls-synthetic-filepass", "xls", read_xls, ".xls", W.cfb([("Workbook", ser_recs(recs))]), True)
@@ -365,6 +445,61 @@ NAME_POOL = ["EncryptionInfo", "EncryptedPackage", "DataSpaces", "\x06DataSpaces
              "dataspaces", "WordDocument", "Workbook", "PowerPoint Document", "EncryptedSummary",
              "EncryptedSummaryInformation", "encryptedsummary", "Current User", "\x05SummaryInformation",
              "EncryptionInfo2", "XEncryptedPackage", "Encrypted", "Package", "1Table"]
+
+
+def ppt_token_aware() -> bool:
+    """Does today's is_ppt_encrypted look at CurrentUserAtom.headerToken (0xF3D1C4DF)?  (G: co_consts)"""
+    from sharepoint2text.parsing.extractors.util import encryption
+    def ints(code):
+        out = []
+        for c in code.co_consts:
+            if isinstance(c, int) and not isinstance(c, bool):
+                out.append(c)
+            elif isinstance(c, bytes):
+                out.append(int.from_bytes(c, "little"))
+                out.append(int.from_bytes(c, "big"))
+            elif hasattr(c, "co_consts"):
+                out += ints(c)
+        return out
+    return 0xF3D1C4DF in ints(encryption.is_ppt_encrypted.__code__)
+
+
+def ppt_crypto_cases(ctx, cases, info, e2e):
+    """Legacy PPT really encrypted with RC4 CryptoAPI ([MS-PPT] 2.3.7) by the harness writer, with and without
+    encrypted document properties (= with and without an EncryptedSummary stream), plus header-token surgery."""
+    import olefile
+    from sharepoint2text.parsing.extractors.util import encryption
+    from sharepoint2text.parsing.extractors.ms_legacy.ppt_extractor import read_ppt
+    aware = ppt_token_aware()
+    for fx in sorted(glob.glob(str(RES / "legacy_ms" / "*.ppt"))):
+        data = open(fx, "rb").read()
+        base = os.path.basename(fx)
+        variants = []
+        try:
+            rebuilt = W.cfb(W.ole_all_streams(data))
+            variants.append(("rebuilt-plain", rebuilt, False))
+            for pw in ("pw123", ""):
+                variants.append((f"cryptsession10-no-encryptedsummary", W.ppt_encrypt(data, password=pw, doc_props_encrypted=False), True))
+                variants.append((f"cryptsession10-with-encryptedsummary", W.ppt_encrypt(data, password=pw, doc_props_encrypted=True), True))
+        except (AssertionError, ValueError):
+            ctx.count("ppt-encrypt-writer-skipped(multi-edit or nested storage)")
+        # header-token surgery alone (same size): marked encrypted / token cleared on an encrypted one
+        try:
+            variants.append(("header-token-set", W.ole_patch(data, "Current User", [(12, bytes.fromhex("DFC4D1F3"))]), None))
+        except Exception:  # noqa
+            pass
+        for nm, d, expect in variants:
+            with olefile.OleFileIO(io.BytesIO(d)) as ole:
+                listed = [p[0] for p in ole.listdir(streams=True, storages=True) if len(p) == 1]
+                cu = ole.openstream("Current User").read() if ole.exists("Current User") else b""
+            tok = f"(Some {int.from_bytes(cu[12:16], 'little')})" if len(cu) >= 16 else "None"
+            g = bool(encryption.is_ppt_encrypted(io.BytesIO(d)))
+            cases.append(f"CPpt {coq_bool(aware)} {c_opt_strs(listed)} {tok} {coq_bool(g)}")
+            info.append(("ppt-crypto", base, nm, g))
+            if expect is None:
+                ctx.case(("ppt-token", base), True, kind="ppt:token-surgery")
+                continue
+            e2e.check(f"ppt-{nm}", "ppt", read_ppt, ".ppt", d, expect, cli=(nm != "rebuilt-plain"))
 
 
 def ole_cases(ctx, cases, info, e2e):
@@ -393,7 +528,7 @@ def ole_cases(ctx, cases, info, e2e):
         g2 = bool(encryption.is_ppt_encrypted(io.BytesIO(data)))
         cases.append(f"COoxml {c_opt_strs(listed)} {coq_bool(g1)}")
         info.append(("ooxml-names", repr(listed), "", g1))
-        cases.append(f"CPpt {c_opt_strs(listed)} {coq_bool(g2)}")
+        cases.append(f"CPpt {coq_bool(ppt_token_aware())} {c_opt_strs(listed)} None {coq_bool(g2)}")
         info.append(("ppt-names", repr(listed), "", g2))
         low = {n.lower() for n in names}
         want1 = bool(low & {"encryptioninfo", "encryptedpackage", "dataspaces"})
@@ -979,16 +1114,26 @@ def pdf_boundary_cases(ctx, e2e):
     plans = []
     full = ["AES-128"] if ctx.tier == "quick" else ["AES-128", "AES-256-R5", "RC4-128", "AES-256"]
     for alg in full:
-        for r in range(16):
+        # AES-256 (revision 6: ~10 s per document in pure Python) runs last, boundary residues first, under a budget
+        for r in ([0, 15, 1, 8] + [x for x in range(16) if x not in (0, 15, 1, 8)]):
             plans.append((alg, r, 16 + r if r else 32, 16 + r if r else 16))
+    R6_BUDGET_S = 300
+    r6_spent, r6_done, r6_skipped = 0.0, 0, 0
+    import time as _time
     for alg in (["AES-256-R5", "RC4-128", "RC4-40"] if ctx.tier == "quick" else ["RC4-40"]):
         for r in (0, 1, 15):
             plans.append((alg, r, 16 + r if r else 32, 16 + r if r else 16))
     for _ in range(ctx.n(6, 40)):          # independent residues per object
         plans.append((rng.choice(["AES-128", "AES-256-R5"]), rng.randrange(16), rng.randint(1, 70), rng.randint(0, 40)))
     ref_cache = {}
+    plans.sort(key=lambda pl: pl[0] == "AES-256")      # stable: revision-6 documents last
     for alg, cmod, ilen, alen in plans:
         k = (cmod, ilen, alen)
+        if alg == "AES-256":
+            if r6_spent > R6_BUDGET_S:
+                r6_skipped += 1
+                continue
+            _t0 = _time.time()
         try:
             if k not in ref_cache:
                 plain = synthetic_pdf(cmod, ilen, alen)
@@ -1008,6 +1153,9 @@ def pdf_boundary_cases(ctx, e2e):
             err = None
         except Exception as e:  # noqa
             got, err = None, f"{type(e).__name__}: {e}"
+        if alg == "AES-256":
+            r6_spent += _time.time() - _t0
+            r6_done += 1
         ctx.case(("pdf-boundary", alg, cmod, ilen, alen), True,
                  kind=f"pdf-boundary:{alg}:{'multiple-of-16' if 0 in (cmod, ilen % 16, alen % 16) else 'inner'}")
         if got != ref:
@@ -1024,6 +1172,8 @@ def pdf_boundary_cases(ctx, e2e):
                         f"extract like its plain original: {err or 'differs in ' + ', '.join(which)}",
                         {"input": data, "original": plain, "expected": ref, "got": got})
     restore_pristine_pypdf()
+    ctx.extra["aes256_r6_boundary"] = {"done": r6_done, "skipped_over_budget": r6_skipped, "budget_s": R6_BUDGET_S,
+                                       "spent_s": round(r6_spent, 1), "tier": ctx.tier}
 
 
 def pdf_cases(ctx, cases, info, e2e):
@@ -1114,8 +1264,13 @@ def run(ctx):
         "harness writers tools/props/c08_writers.py (CFB, 7z, ZIP patching, OLE surgery, independent AES for writing PDFs)",
     ]
     ctx.assumptions += ["str.lower is modelled for ASCII stream names only in the correspondence (theorems are parametric in lower)",
-                        "PPT: only the stream-name test of is_ppt_encrypted is modelled; a CryptSession10 PPT without an "
-                        "EncryptedSummary stream is outside the detector (no such input could be generated)"]
+                        "legacy PPT RC4 CryptoAPI inputs are built by the harness from [MS-PPT] 2.3.7 / [MS-OFFCRYPTO] 2.3.5 "
+                        "(persist objects really RC4-encrypted, CryptSession10Container, header token); no independent reader "
+                        "was available to validate the writer",
+                        "XLS FILEPASS flavours (XOR, RC4, RC4 CryptoAPI): record layout per [MS-XLS] 2.4.117, following payloads "
+                        "scrambled with a keystream, not with the real cipher (irrelevant to a detector that reads record ids)",
+                        "raw BIFF2-4 files (no OLE container) are not a supported input of read_xls even when plain, so they are "
+                        "outside the pairs"]
     gen_skeletons(ctx)
     gen_tables(ctx)
 
@@ -1123,9 +1278,11 @@ def run(ctx):
         "C08_biff_terminates", "C08_biff_filepass_any_position", "C08_xls_sound", "C08_xls_complete", "C08_ooxml_iff",
         "C08_ppt_iff", "C08_doc_fib_flag", "C08_odf_sound", "C08_odf_complete", "C08_zip_sound_any_member", "C08_zip_complete",
         "C08_7z_needs_password_iff", "C08_7z_sound", "C08_7z_complete", "C08_epub_iff", "C08_pdf_iff", "C08_reject_before_yield",
-        "C08_pkcs7_roundtrip", "C08_pkcs7_full_block", "C08_pkcs7_padded_length", "C08_pkcs7_rejects_bad_byte"])
+        "C08_pkcs7_roundtrip", "C08_pkcs7_full_block", "C08_pkcs7_padded_length", "C08_pkcs7_rejects_bad_byte",
+        "C08_ppt_token_sound_refuted", "C08_ppt_sound_partial", "C08_ppt_token_aware_iff"])
     ctx.prove("C08/Inst.v", ["Gen/C08Skeletons.vo", "Gen/C08Tables.vo", "C08/Flow.vo", "C08/Model.vo", "C08/Corr.vo"], expected=[
-        "C08_all_guarded", "C08_no_result_before_rejection", "C08_skeleton_count", "C08_constants"])
+        "C08_all_guarded", "C08_no_result_before_rejection", "C08_skeleton_count", "C08_constants",
+        "C08_zip_pass1_delivers_nothing", "C08_zip_prefix_has_the_guard"])
 
     cases, info = [], []
     with tempfile.TemporaryDirectory(dir="/var/tmp", prefix="c08-") as td:
@@ -1133,7 +1290,7 @@ def run(ctx):
         import time
         timing = ctx.extra.setdefault("section_seconds", {})
         for nm, f in (("fixtures", lambda: fixture_cases(ctx, e2e)), ("biff", lambda: biff_cases(ctx, cases, info)),
-                      ("xls", lambda: xls_e2e(ctx, e2e)), ("ole", lambda: ole_cases(ctx, cases, info, e2e)),
+                      ("xls", lambda: xls_e2e(ctx, e2e)), ("ole", lambda: ole_cases(ctx, cases, info, e2e)), ("ppt-crypto", lambda: ppt_crypto_cases(ctx, cases, info, e2e)),
                       ("doc", lambda: doc_cases(ctx, cases, info, e2e)), ("odf", lambda: odf_cases(ctx, cases, info, e2e)),
                       ("zip", lambda: zip_cases(ctx, cases, info, e2e)), ("7z", lambda: sevenz_cases(ctx, cases, info, e2e)),
                       ("epub", lambda: epub_cases(ctx, cases, info, e2e)), ("pdf", lambda: pdf_cases(ctx, cases, info, e2e)),
@@ -1172,6 +1329,9 @@ META = {
                   "generated pairs plus the 10 protected fixtures through all three entry points.",
     "level_note": "Trusted: Coq kernel+VM; ast translator and its guard pattern; constant dump; hand-written models (validated "
                   "differentially); harness writers. Validated only: exception class at the entry points, CLI behaviour, "
-                  "empty-password PDF content equality (pypdf + the repo's AES fallback), PPT CryptSession10 without "
-                  "EncryptedSummary not generated.",
+                  "empty-password PDF content equality (pypdf + the repo's AES fallback; AES-256 revision 6 boundary "
+                  "documents only in the thorough tier under a 300 s budget, the count done/skipped is in the evidence). "
+                  "Open finding: PPT CryptSession10 without EncryptedSummary (proposed patch not applied). Cannot be modelled: "
+                  "olefile/zipfile/pypdf/ElementTree internals (oracles); xlrd's own 'Workbook is encrypted' error is never "
+                  "reached because the record walk runs first.",
 }
